@@ -123,7 +123,7 @@ PROPS = {
     "C13": {
         "claimed": True,
         "technique": "Coq proof (case analysis over every decision path + lra over R, closed min/max forms, witnesses for existential clauses) over programs translated from the compiled code",
-        "level_text": "all Aabr/Aabb/Rect/Rect3 methods (85 entry points, 1253 control-flow paths) are translated from the compiled code and proved against point-set semantics over the reals for ALL boxes (valid and invalid unless stated) and ALL points in 2D and 3D: containment = closed-interval membership; union = smallest box containing both; intersection = exactly the common points (invalid iff none); box containment; collision iff interiors meet (touching faces do not collide); expansion, split (cover + meet on the plane, panics outside), centre/size/half-size, validity repair; projected_point is in the box and no box point is nearer, panics exactly on invalid boxes; distance; collision-vector touching law; every Rect/Rect3 method equals the box method on the converted value; conversions both ways. The 4 geometry unit tests sample single values.",
+        "level_text": "all Aabr/Aabb/Rect/Rect3 methods (85 entry points, 1253 control-flow paths) are translated from the compiled code and proved against point-set semantics over the reals for ALL boxes (valid and invalid unless stated) and ALL points in 2D and 3D: containment = closed-interval membership; union = smallest box containing both; intersection = exactly the common points (invalid iff none); box containment; collision iff interiors meet (touching faces do not collide); expansion, split (cover + meet on the plane, panics outside), centre/size/half-size, validity repair; projected_point is in the box and no box point is nearer, panics exactly on invalid boxes; distance; collision-vector touching law; every Rect/Rect3 method equals the box method on the converted value; conversions both ways. For integer element types of EVERY width the dividing methods (center, half_size; Rect centre) are proved to return the truncated halves per axis under Rust's machine-integer semantics whenever the corner sums/differences are representable (and the 8-bit instances are run exhaustively against the real i8/u8 code). The 4 geometry unit tests sample single values.",
         "level_note": "Trusted: Coq kernel; stdlib real-number axioms as printed; symx translator incl. the textual lift of the scalar Clamp impl from src/ops.rs (self-checked each run); Rust parametricity. Exact real arithmetic (a total order without NaN).",
         "design_ref": "DESIGN.md section 7, C13",
         "assumptions": ["scalars are exact real numbers (total order, no NaN)"],
